@@ -20,7 +20,8 @@ CONSTANT Family      \* which matrices: "ops" | "index" | "update" | "member" | 
 AllKinds == << "nil", "bool", "int", "int_neg", "int8", "int64", "uint", "uint8", "float64", "float32", "str", "empty_str", "html", "htmler",
                "stringer", "time", "slice_any", "slice_str", "slice_int", "slice_struct", "empty_slice", "nil_slice", "array_int", "ptr_slice",
                "map_str_any", "map_str_str", "map_int_str", "map_any_any", "map_str_struct", "nil_map", "struct", "ptr_struct", "nilptr_struct",
-               "func0", "func_str", "func_err", "func_variadic", "func_help", "iter", "userfn_src", "unknown" >>
+               "func0", "func_str", "func_err", "func_variadic", "func_help", "iter", "userfn_src", "unknown",
+               "ptr_map", "ptr_array", "ptr_str", "ptr_int", "nil_func", "nilptr_time", "ptr_time", "struct_embedded_nil", "slice_stringer", "slice_ptr_struct", "func_returns_nilfunc", "nilptr_map" >>
 \* a smaller set for the third variable of three-variable forms
 ValueKinds == << "nil", "int", "str", "float64", "bool", "slice_any", "map_str_any", "struct", "ptr_struct", "func0" >>
 KindSet(s) == {s[i] : i \in 1..Len(s)}
@@ -65,6 +66,10 @@ FormsOf(fam) ==
            [n |-> "deepnil", vars |-> 1, src |-> E(<<"a", ".", "NilKid", ".", "Name">>)],
            [n |-> "kids", vars |-> 2, src |-> E(<<"a", ".", "Kids", "[", "b", "]", ".", "Name">>)],
            [n |-> "fieldcall", vars |-> 1, src |-> E(<<"a", ".", "Name", "(", ")">>)],
+           [n |-> "nilfieldmethod", vars |-> 1, src |-> E(<<"a", ".", "NilKid", ".", "Hello", "(", ")">>)],
+           [n |-> "nilfieldptrmethod", vars |-> 1, src |-> E(<<"a", ".", "NilKid", ".", "Shout", "(", ")">>)],
+           [n |-> "promoted", vars |-> 1, src |-> E(<<"a", ".", "Inner">>)],
+           [n |-> "funcfield", vars |-> 1, src |-> E(<<"a", ".", "Fn", "(", ")">>)],
            [n |-> "iterate", vars |-> 1, src |-> E(<<"for", " ", "(", "k", ",", " ", "v", ")", " ", "in", " ", "a", " ", "LBR", " ", "%>", "<%=", " ", "k", " ", "%>", "<%=", " ", "v", " ", "%>", "<%", " ", "RBR">>)],
            [n |-> "iterfield", vars |-> 1, src |-> E(<<"for", " ", "(", "v", ")", " ", "in", " ", "a", ".", "Kids", " ", "LBR", " ", "%>", "<%=", " ", "v", ".", "Name", " ", "%>", "<%", " ", "RBR">>)] }
     [] fam = "call" ->
@@ -75,7 +80,8 @@ FormsOf(fam) ==
            [n |-> "callblock", vars |-> 1, src |-> E(<<"a", "(", ")", " ", "LBR", " ", "%>", "x", "<%", " ", "RBR">>)],
            [n |-> "userfn0", vars |-> 1, src |-> C(<<"let", " ", "f", " ", "=", " ", "fn", "(", "p", ",", " ", "q", ")", " ", "LBR", " ", "return", " ", "p", " ", "RBR">>) \o E(<<"f", "(", "a", ")">>)],
            [n |-> "userfn3", vars |-> 1, src |-> C(<<"let", " ", "f", " ", "=", " ", "fn", "(", "p", ")", " ", "LBR", " ", "return", " ", "p", " ", "RBR">>) \o E(<<"f", "(", "a", ",", " ", "a", ",", " ", "a", ")">>)],
-           [n |-> "chaincall", vars |-> 2, src |-> E(<<"a", "(", "b", ")", ".", "Name">>)] }
+           [n |-> "chaincall", vars |-> 2, src |-> E(<<"a", "(", "b", ")", ".", "Name">>)],
+           [n |-> "callcall", vars |-> 1, src |-> E(<<"a", "(", ")", "(", ")">>)] }
     [] fam = "builtin" ->
          { [n |-> "b1:" \o h, vars |-> 1, src |-> E(<<h, "(", "a", ")">>)] :
              h \in {"len", "raw", "htmlEscape", "jsEscape", "toJSON", "json", "until", "inspect", "debug", "env", "capitalize", "pluralize", "ordinalize", "contentOf", "truncate", "partial", "underscore"} }
